@@ -307,10 +307,10 @@ def score_obligations():
 
 
 CVSCORE_FUNCS = [(_BASE_UTILS, f) if isinstance(f, str) else f for f in SCORE_FUNCS] + [
-    (os.path.join("verde", "utils.py"), "dispatch"), "select", "fit_score", "cross_val_score"]
+    (os.path.join("verde", "utils.py"), "dispatch"), "select", "fit_score", "cross_val_score", "train_test_split"]
 CVSCORE_THEOREMS = SCORE_THEOREMS + ["src_select_eq", "src_select_nones", "src_fit_score_eq", "src_dispatch_eq",
-                                     "src_cross_val_score_eq", "cross_val_score_model"]
-CVSCORE_TEMPLATES = ["pylite_score.v.tmpl", "pylite_cvscore.v.tmpl"]
+                                     "src_cross_val_score_eq", "cross_val_score_model", "src_train_test_split_eq"]
+CVSCORE_TEMPLATES = ["pylite_score.v.tmpl", "pylite_cvscore.v.tmpl", "pylite_tts.v.tmpl"]
 CVSCORE_IMPORTS = SCORE_IMPORTS
 
 
